@@ -31,7 +31,8 @@ CLAIMS = {
            "hypothesis, sync_cut_discards_only_raised; async: async_external_never_dropped / external_exactly_once_async "
            "/ fifo_exactly_once_async), the full exactly-once statements incl. raised events under the bound hypothesis "
            "(fifo_exactly_once_clean, fifo_exactly_once_async_clean), async_start_settles_before_loop, "
-           "mutual_exclusion_atomic. Findings F10 F30 F42 are fixed in the library; the unlocked re-entrancy flag "
+           "mutual_exclusion_atomic, failed_macrostep_keeps_the_rest_queued (+ witness failed_macrostep_example: a macrostep "
+           "whose error escapes the sync call leaves everything else queued, raised events of completed macrosteps included). Findings F10 F30 F42 are fixed in the library; the unlocked re-entrancy flag "
            "(mutual_exclusion_fails / flag_protocol_can_strand_an_event) is exhibited in the statement-granularity "
            "model only; the monitor follows raised events across calls that ended in an escaping failure. F70 (bound per "
            "busy period, not per causal chain) open",
